@@ -24,10 +24,17 @@
      played by a layer of the harness; retry.RetryOnConflict is 4 attempts, its sleeps are
      not modelled.
 
+   * Patch files as TEXT (C13_TModel / C13_TSpec, theorems named C13_text_...): the JSON path
+     of unmarshalFromJSONOrYAML is modelled byte by byte (encoding/json's scanner and the
+     Decoder loop: value after value until EOF, anything else is an error) with the fallback
+     rule; the YAML decoder stays an oracle (a parameter: what it makes of the whole text), and
+     so does the meaning of one document text (a table).  Invalid UTF-8 and the decoding of a
+     value into OperationSpec beyond "object or null" are not modelled.
+
    The model follows the tree AFTER the repair of F12 (YAML integers reached
    Unstructured.DeepCopy as Go int: panic); there is no known-finding trigger. *)
 From Coq Require Import String.
-From Verif Require Import Common Json C13_Model C13_Spec C13_Proofs C13_GModel C13_GSpec C13_GProofs C13_CModel C13_CSpec C13_CProofs.
+From Verif Require Import Common Json C13_Model C13_Spec C13_Proofs C13_GModel C13_GSpec C13_GProofs C13_CModel C13_CSpec C13_CProofs C13_TModel C13_TSpec C13_TProofs.
 
 (* the whole property on the model: for every initial cluster, every stream of
    documents and every projection of objects, one hook run satisfies the predicate *)
@@ -364,3 +371,119 @@ Example C13_conc_hyp_met :
   (let '(r, ms) := chandle_run c_ex [DOp jq_hook; DOp (OCreate CPlain (cm "cm2" []))] [[other "1"; other "2"; other "3"; other "4"]] in
    (r_errors r, ms, map fst (r_cluster r)) = ([EConflict], [4; 0], [k1; B "ConfigMap/default/cm2"])).
 Proof. split; [apply equiv_refl|]. repeat split; vm_compute; reflexivity. Qed.
+
+(* ---------- patch files as text ---------- *)
+
+(* the whole property there: for every text built as doc1 .. dock tail - complete JSON
+   documents, any white space between them, and a tail that is white space (a well-formed
+   stream) or no continuation of a JSON stream (a fault and whatever follows it) -, every
+   answer of the YAML decoder, every meaning of the documents, every initial cluster: the
+   run satisfies the predicate: all documents once in order, or nothing applied and failed *)
+Theorem C13_text_run_meets_spec : forall proj c tb yaml sh,
+  shape_ok sh = true -> P_text proj c tb yaml sh (handle_text_run c tb yaml (text_of sh)) = true.
+Proof. exact text_run_meets_spec. Qed.
+Print Assumptions C13_text_run_meets_spec.
+
+Theorem C13_text_hook_run_meets_spec : forall proj c tb yaml sh,
+  shape_ok sh = true ->
+  let r := handle_text_run c tb yaml (text_of sh) in
+  P_text_hook proj c tb yaml sh (failed r) (r_cluster r) (r_calls r) = true.
+Proof. exact text_hook_run_meets_spec. Qed.
+Print Assumptions C13_text_hook_run_meets_spec.
+
+(* the decoder loop over doc1 .. dock tail reads exactly the documents, each once, in order,
+   and then what it reads in the tail; an error in the tail is an error of the whole *)
+Theorem C13_text_documents_then_tail : forall ds tail,
+  forallb piece_ok ds = true ->
+  json_values (flatten ds tail) = option_map (app (map snd ds)) (json_values tail).
+Proof. exact json_values_docs. Qed.
+Print Assumptions C13_text_documents_then_tail.
+
+(* well-formed streams, with any white space between the documents: the run of C13_Model on
+   every document once in order *)
+Theorem C13_text_wellformed_in_order : forall c tb yaml ds tail,
+  forallb doc_ok ds = true -> all_ws tail = true ->
+  handle_text_run c tb yaml (flatten ds tail) = handle_run c (map (fun wv => meaning tb (snd wv)) ds).
+Proof. exact wellformed_is_handle_run. Qed.
+Print Assumptions C13_text_wellformed_in_order.
+
+(* doc1 .. dock fault rest, not YAML either: no operation list, nothing applied, no API call,
+   the run fails - however many well-formed documents precede the fault *)
+Theorem C13_text_fault_fails_as_a_whole : forall c tb ds tail,
+  forallb doc_ok ds = true -> broken_tail tail = true ->
+  parse_text tb None (flatten ds tail) = None /\
+  handle_text_run c tb None (flatten ds tail) = mkOutcome false c [] [] /\
+  failed (handle_text_run c tb None (flatten ds tail)) = true.
+Proof.
+  intros c tb ds tail Hd Ht. pose proof (broken_is_yaml c tb None ds tail Hd Ht) as H.
+  split; [|rewrite H; split; reflexivity].
+  unfold parse_text. rewrite (json_path_docs ds tail Hd). unfold broken_tail in Ht. now destruct (json_path tail).
+Qed.
+Print Assumptions C13_text_fault_fails_as_a_whole.
+
+(* faults: a byte no value starts with (a stray closing bracket or brace, a comma, a colon,
+   NUL and the other control bytes, a letter, ...) after any white space, whatever follows *)
+Theorem C13_text_stray_byte_is_broken : forall w c rest,
+  all_ws w = true -> bad_start c = true -> broken_tail (w ++ c :: rest) = true.
+Proof. intros w c rest Hw Hc. apply broken_after_ws; [exact Hw | now apply broken_bad_start]. Qed.
+Print Assumptions C13_text_stray_byte_is_broken.
+
+(* ... and a document cut short ANYWHERE (inside a string, after a key, after a colon, inside
+   a nested object): every proper non-empty prefix of a complete document, as the last thing
+   of the text *)
+Theorem C13_text_truncated_is_broken : forall w p s,
+  all_ws w = true -> complete (p ++ s) = true -> p <> [] -> s <> [] -> broken_tail (w ++ p) = true.
+Proof. intros w p s Hw H Hp Hs. apply broken_after_ws; [exact Hw | now apply (broken_truncated p s)]. Qed.
+Print Assumptions C13_text_truncated_is_broken.
+
+(* together: any number of well-formed documents, then - after any white space - a stray
+   closing brace or bracket (or any other byte no value starts with) and whatever follows, or a
+   last document cut short anywhere: when the text is no YAML either, nothing is applied and
+   the run fails; never the documents in front of the fault applied and the rest dropped *)
+Theorem C13_text_stray_or_truncated_fails : forall c tb ds w,
+  forallb doc_ok ds = true -> all_ws w = true ->
+  (forall b rest, bad_start b = true ->
+     handle_text_run c tb None (flatten ds (w ++ b :: rest)) = mkOutcome false c [] []) /\
+  (forall p s, complete (p ++ s) = true -> p <> [] -> s <> [] ->
+     handle_text_run c tb None (flatten ds (w ++ p)) = mkOutcome false c [] []).
+Proof.
+  intros c tb ds w Hd Hw. split.
+  - intros b rest Hb. apply (broken_is_yaml c tb None ds _ Hd).
+    apply broken_after_ws; [exact Hw | now apply broken_bad_start].
+  - intros p s H Hp Hs. apply (broken_is_yaml c tb None ds _ Hd).
+    apply broken_after_ws; [exact Hw | now apply (broken_truncated p s)].
+Qed.
+Print Assumptions C13_text_stray_or_truncated_fails.
+
+(* ---------- non-vacuity for the C13_text_... theorems ---------- *)
+
+Definition t_merge : text :=
+  B "{""operation"":""MergePatch"",""kind"":""ConfigMap"",""namespace"":""default"",""name"":""cm1"",""mergePatch"":{""data"":{""b"":""}\""2""}}}".
+Definition t_delete : text :=
+  B "{""operation"":""DeleteInBackground"",""kind"":""ConfigMap"",""namespace"":""default"",""name"":""cm1""}".
+Definition o_merge : op := OPatch k1 (PMerge (JObj [(B "data", JObj [(B "b", s "}""2")])])) [] false.
+Definition tb_ex : table := [(t_merge, DOp o_merge); (t_delete, DOp (ODelete DBackground k1))].
+Definition nl : text := [10%N].
+
+(* the hypotheses are met: two complete documents that unmarshal; } ] , : NUL and a letter are
+   bytes no value starts with; the merge patch document cut inside a string, after a key,
+   after a colon; shapes with a stray brace after the second document / a document cut short
+   are honest descriptions; and the runs: a well-formed stream applies both documents in
+   order (the object is patched, then deleted), the stream with the stray brace applies
+   nothing and fails *)
+Example C13_text_hyp_met :
+  forallb doc_ok [([], t_merge); (nl, t_delete)] = true /\
+  map bad_start [125; 93; 44; 58; 0; 7; 120]%N = [true; true; true; true; true; true; true] /\
+  (exists p q, t_merge = p ++ q /\ p <> [] /\ q <> [] /\ complete (p ++ q) = true) /\
+  shape_ok (mkShape [([], t_merge); (nl, t_delete)] (125%N :: nl)) = true /\
+  shape_ok (mkShape [([], t_merge)] (nl ++ firstn 40 t_delete)) = true /\
+  shape_ok (mkShape [([], t_merge); (nl, t_delete)] nl) = true /\
+  handle_text_run c_ex tb_ex None (text_of (mkShape [([], t_merge); (nl, t_delete)] nl))
+  = mkOutcome true [] [(VPatch, k1, []); (VDelete, k1, [])] [] /\
+  handle_text_run c_ex tb_ex None (text_of (mkShape [([], t_merge); (nl, t_delete)] (125%N :: nl)))
+  = mkOutcome false c_ex [] [].
+Proof.
+  split; [vm_compute; reflexivity|]. split; [vm_compute; reflexivity|].
+  split; [exists (firstn 30 t_merge), (skipn 30 t_merge); repeat split; try (vm_compute; reflexivity); vm_compute; discriminate|].
+  repeat split; vm_compute; reflexivity.
+Qed.
